@@ -9,8 +9,8 @@ import (
 	"fmt"
 	"io"
 	"net/http"
-	"net/netip"
 	"net/http/httptest"
+	"net/netip"
 	"os"
 	"path/filepath"
 	"strings"
@@ -41,15 +41,34 @@ func vfC14List(n, gen int) (s string) {
 type vfC14Server struct {
 	mu   sync.Mutex
 	body string
-	srv  *httptest.Server
+	// cutAt, if not negative, makes the server announce the full length and
+	// drop the connection after that many bytes of the body.
+	cutAt int
+	srv   *httptest.Server
 }
 
 func vfNewC14Server() (s *vfC14Server) {
-	s = &vfC14Server{}
+	s = &vfC14Server{cutAt: -1}
 	s.srv = httptest.NewServer(http.HandlerFunc(func(w http.ResponseWriter, _ *http.Request) {
 		s.mu.Lock()
-		b := s.body
+		b, cut := s.body, s.cutAt
 		s.mu.Unlock()
+		if cut >= 0 && cut < len(b) {
+			hj, ok := w.(http.Hijacker)
+			if !ok {
+				return
+			}
+			conn, buf, err := hj.Hijack()
+			if err != nil {
+				return
+			}
+			fmt.Fprintf(buf, "HTTP/1.1 200 OK\r\nContent-Type: text/plain\r\nContent-Length: %d\r\n\r\n", len(b))
+			_, _ = buf.WriteString(b[:cut])
+			_ = buf.Flush()
+			_ = conn.Close()
+
+			return
+		}
 		w.Header().Set("Content-Type", "text/plain")
 		_, _ = io.WriteString(w, b)
 	}))
@@ -126,9 +145,34 @@ func TestVFC14FilterList(t *testing.T) {
 			if rapid.IntRange(0, 4).Draw(t, fmt.Sprintf("r%d_same", i)) == 0 && i > 0 {
 				body = prevBody
 			}
+			// an interrupted download: the announced length is not delivered
+			cut := -1
+			if i > 0 && len(body) > 40 && body != prevBody && rapid.IntRange(0, 3).Draw(t, fmt.Sprintf("r%d_interrupted", i)) == 0 {
+				cut = rapid.SampledFrom([]int{30, len(body) / 2, len(body) - 1, len(body) - 20}).Draw(t, fmt.Sprintf("r%d_cut", i))
+			}
 			srv.mu.Lock()
 			srv.body = body
+			srv.cutAt = cut
 			srv.mu.Unlock()
+			if cut >= 0 {
+				// a failed refresh must leave the complete previous version
+				before, _ := os.ReadFile(path)
+				cp := vfkit.CheckSave(t, "interrupted filter refresh", w, fdir, name, func() error {
+					_, _, _ = d.tryRefreshFilters(true, true, true)
+
+					return nil
+				}, false)
+				after, _ := os.ReadFile(path)
+				if string(after) != string(before) {
+					t.Fatalf("a download cut after %d of %d bytes changed the stored list: %d -> %d bytes", cut, len(body), len(before), len(after))
+				}
+				vfC14.Eval()
+				vfC14.ClassN("crash_points", cp)
+				vfC14.Class("filterlist:interrupted_download")
+				vfC14.Nontrivial(fmt.Sprintf("filterlist|cut|%d|%d|pos%d", cut, len(body), i))
+
+				continue
+			}
 
 			// the stored form drops the title comment, so "changed" is judged on
 			// the rule lines
